@@ -47,7 +47,7 @@ def scenario_strategy(opts):
         prog = draw(G.programs(opts))
         ents = G.entries(prog)
         root, style = draw(st.sampled_from(ents[-2:] if len(ents) > 1 else ents))
-        start = draw(st.sampled_from(["fresh_missing", "fresh_created", "old_version", "old_version", "same_version"]))
+        start = draw(st.sampled_from(["fresh_missing", "fresh_created", "old_version", "old_version", "same_version", "other_view"]))
         old = prog
         for _ in range(draw(st.integers(1, 2))):
             old = M.apply_edit(old, draw(G.edits(old, root, kinds=["setvar", "bump", "setlit", "bump"], opts=opts)))
@@ -66,7 +66,7 @@ def write_prog(root_dir, prog):
             f.write(content)
 
 
-def process_fn(root_dir, store_dir, prog, root, style, cache, evals=1, loads=()):
+def process_fn(root_dir, store_dir, prog, root, style, cache, evals=1, loads=(), data="data"):
     """the body of one simulated dds process: open the local store, evaluate `evals` times, load some paths"""
     f = prog["funcs"][root]
     modname, fname = M.modname(prog, f["mod"]), f["name"]
@@ -82,7 +82,7 @@ def process_fn(root_dir, store_dir, prog, root, style, cache, evals=1, loads=())
         import vlog
 
         dds.accept_module(pkg)
-        dds.set_store("local", internal_dir=os.path.join(store_dir, "internal"), data_dir=os.path.join(store_dir, "data"), cache_objects=cache)
+        dds.set_store("local", internal_dir=os.path.join(store_dir, "internal"), data_dir=os.path.join(store_dir, data), cache_objects=cache)
         out = {"evals": [], "loads": {}}
         for p in loads:
             try:
@@ -152,20 +152,22 @@ def check_scenario(sc, ev=None, scratch=None, only_k=None):
         pre = {}
         what = f"start={sc['start']} cache={cache} style={style}"
         # ---- initial store
-        if sc["start"] in ("old_version", "same_version"):
-            p0 = sc["old"] if sc["start"] == "old_version" else prog
+        vdata = "dataB" if sc["start"] == "other_view" else "data"   # the victim's data directory
+        if sc["start"] in ("old_version", "same_version", "other_view"):
+            p0 = sc["old"] if sc["start"] in ("old_version", "other_view") else prog
             write_prog(root_old, p0)
             r = sched.run_plain(process_fn(root_old, live, p0, root, style, cache))
             if r[0] != "ok":
                 raise Violation(f"{what}: populating the store raised {r[1]}", sc)
             _, it_old = M.expected_value(p0, root)
-            pre = dict(it_old.kept)
+            # (second data view on the same internal directory: nothing is committed in the victim's view yet)
+            pre = dict(it_old.kept) if sc["start"] != "other_view" else {}
         elif sc["start"] == "fresh_created":
             os.makedirs(os.path.join(live, "internal", "blobs"))
             os.makedirs(os.path.join(live, "data"))
         copy_store(live, template)
         all_paths = sorted(set(pre) | set(it_new.kept))
-        victim = process_fn(root_new, live, prog, root, style, cache)
+        victim = process_fn(root_new, live, prog, root, style, cache, data=vdata)
         # ---- dry run under the proxy (no kill): trace + result + agreement with an un-proxied run
         copy_store(template, live)
         dry = sched.run([victim])
@@ -191,7 +193,7 @@ def check_scenario(sc, ev=None, scratch=None, only_k=None):
                 raise common.HarnessError(f"victim finished before boundary {k} (trace is not deterministic): {run['trace'][-3:]}")
             at = f"{what}: victim killed before operation #{k} {trace[k]} (after {trace[k - 1]})"
             # observer: paths committed before the crash
-            obs = sched.run_plain(process_fn(root_new, live, prog, root, style, cache, evals=0, loads=sorted(pre)))
+            obs = sched.run_plain(process_fn(root_new, live, prog, root, style, cache, evals=0, loads=sorted(pre), data=vdata))
             if obs[0] != "ok":
                 raise Violation(f"{at}: opening the store afterwards raised {obs[1]['type']}: {obs[1]['msg'][:200]}", dict(sc, k=k))
             for p, (st, v) in obs[1]["loads"].items():
@@ -201,7 +203,7 @@ def check_scenario(sc, ev=None, scratch=None, only_k=None):
                 if v != pre[p] and v != new_v:
                     raise Violation(f"{at}: the path {p} loads {v!r}, neither its old value {pre[p]!r} nor its new value {new_v!r}", dict(sc, k=k))
             # recovery: evaluate twice, load everything
-            rec = sched.run_plain(process_fn(root_new, live, prog, root, style, cache, evals=2, loads=all_paths))
+            rec = sched.run_plain(process_fn(root_new, live, prog, root, style, cache, evals=2, loads=all_paths if vdata == "data" else sorted(it_new.kept), data=vdata))
             if rec[0] != "ok":
                 raise Violation(f"{at}: the next process evaluating the pipeline raised {rec[1]['type']}: {rec[1]['msg'][:300]}", dict(sc, k=k))
             (v1, log1), (v2, log2) = rec[1]["evals"]
